@@ -256,6 +256,22 @@ CLAIMED['C18'] = dict(
          'token lengths 1..64 under locally generated 1024/2048-bit keys.',
     design='§6 C18')
 
+CLAIMED['C20'] = dict(
+    text='Step contracts on the real source, each over the whole abstract view: the five player-list actions on a map with '
+         'symbolic keys (two-point abstraction: the touched entry and ONE arbitrary other entry, which must stay untouched - the '
+         'frame over all other players), actions of a packet applied in list order for a list of any length (for-loop invariant); '
+         'map patching: the pixel loop carries a quantified invariant (every cell holds pixel ((z-oz)*w + (x-ox)) if that index '
+         'was already written, else its original content) for all 128 patch widths, symbolic height/offsets/pixels on a 128-wide '
+         'map, plus copy of id/scale/icons/flags and default-map creation; position tracker for all flag values over reals; '
+         'MutableRecord == / != / hash / iter for every record class with symbolic slots; Vector operators component-wise and '
+         'type-preserving; EVERY multi_attribute_alias of the library (discovered from the getters\' closures) reads back what '
+         'was set; BitFieldEnum/Enum.name_from_value for every enum of the library with a symbolic value: the printed name '
+         'parses back to the value.',
+    note='Histories follow by induction over the step contracts (argument, not machine-checked). Trusted: floats as reals '
+         '(IEEE stand-in alongside: all 32 flag combinations x boundary doubles incl. tiny negatives), hash congruence, dict '
+         'semantics, map width 128 and patch inside the map at proof level (other widths bounded), generated flag enums bounded only.',
+    design='§6 C20')
+
 PLANNED = {
     'C01': 'check not built yet (DESIGN §6 C01): frame contracts on Packet.write/_write_buffer/read_packet',
     'C02': 'check not built yet (DESIGN §6 C02)',
